@@ -96,6 +96,32 @@ func sharedState(a, b *genetics.Genome) string {
 	}
 	walk(a, add)
 	res := ""
+	// trait objects referenced from the copy's nodes, genes and control nodes must be the copy's own
+	own := map[*neat.Trait]bool{}
+	for _, t := range b.Traits {
+		own[t] = true
+	}
+	refs := []*neat.Trait{}
+	for _, n := range b.Nodes {
+		refs = append(refs, n.Trait)
+	}
+	for _, x := range b.Genes {
+		refs = append(refs, x.Link.Trait)
+	}
+	for _, m := range b.ControlGenes {
+		refs = append(refs, m.ControlNode.Trait)
+		for _, l := range m.ControlNode.Incoming {
+			refs = append(refs, l.Trait)
+		}
+		for _, l := range m.ControlNode.Outgoing {
+			refs = append(refs, l.Trait)
+		}
+	}
+	for _, t := range refs {
+		if t != nil && !own[t] {
+			return "the copy references a trait object that is not one of its own traits"
+		}
+	}
 	walk(b, func(v interface{}, what string) {
 		rv := reflect.ValueOf(v)
 		var p uintptr
